@@ -17,6 +17,8 @@ type Ctx struct {
 	Replay string
 	Work   string
 	W      *Worker
+
+	timeouts int
 }
 
 // Impl runs one implementation operation in the sandboxed worker.
@@ -24,8 +26,20 @@ func (c *Ctx) Impl(op string, args ...string) Obs {
 	if c.W == nil {
 		c.W = &Worker{}
 	}
-	return c.W.Call(10*time.Second, op, args...)
+	o := c.W.Call(10*time.Second, op, args...)
+	if o.Class == "timeout" {
+		c.timeouts++
+		// every timeout costs ten seconds: once the search has found this many
+		// non-terminating calls it stops (the violations found so far are reported)
+		if c.timeouts >= 12 {
+			panic(stopSearch{fmt.Sprintf("%d calls did not return within 10 s", c.timeouts)})
+		}
+	}
+	return o
 }
+
+// stopSearch ends a check's exploration early; what was recorded so far is reported.
+type stopSearch struct{ why string }
 
 func (c *Ctx) Quick() bool { return c.Tier != "thorough" }
 
@@ -76,7 +90,18 @@ func main() {
 		}
 		c.Drv = drv
 		c.Rep = NewReport(*prop, *tier, *seed, ck.rule)
-		ck.run(c)
+		func() {
+			defer func() {
+				if r := recover(); r != nil {
+					if st, ok := r.(stopSearch); ok {
+						c.Rep.Extra["stopped_early"] = st.why
+						return
+					}
+					panic(r)
+				}
+			}()
+			ck.run(c)
+		}()
 		drv.Close()
 		if c.W != nil {
 			c.Rep.Extra["worker_restarts"] = c.W.Restarts
